@@ -119,6 +119,11 @@ if ! declare -F "check_$PROP" >/dev/null; then echo "unknown property $PROP"; ex
 finish_parts
 
 NR=$(count_races)
-[ "$NR" = 0 ] || echo "NOTE race-detector reports during this run: $NR (attributed to C09, see ./check.sh C09)"
+if [ "$NR" != 0 ]; then
+  echo "NOTE race-detector reports during this run: $NR (attributed to C09, see ./check.sh C09)"
+  # keep the reports: they are the witness C09 would want to see
+  mkdir -p "$EVDIR/replay"
+  cat "$S"/race-* 2>/dev/null | head -c 400000 > "$EVDIR/replay/$PROP-$TIER-seed$VERIF_SEED-race-reports.txt"
+fi
 "$ROOT/bin/vfmerge" "$PROP" "$TIER" "$EVDIR/$PROP.json" $(( $(date +%s) - T0 )) "${PARTS[@]}" || RC=2
 exit $RC
